@@ -1856,7 +1856,9 @@ static void update_from_ord_info(struct context_data *ctx)
 
 	if (oinfo->speed)
 		p->speed = oinfo->speed;
-	p->bpm = oinfo->bpm;
+	/* Orders the scan never reached (or an empty order list) carry no
+	 * tempo: fall back to the module's initial one. */
+	p->bpm = oinfo->bpm ? oinfo->bpm : m->mod.bpm;
 	p->gvol = oinfo->gvl;
 	p->current_time = oinfo->time;
 	p->frame_time = m->time_factor * m->rrate / p->bpm;
